@@ -5,16 +5,17 @@
 (* built in one canonical order).                                           *)
 EXTENDS Resolve, Json
 
-CONSTANTS Mode, MaxFiles, GenKinds, GenWhere
+CONSTANTS Mode, MaxFiles, GenKinds, GenWhere,
+          GenPre        \* where a PRECEDING load of another url `w` is satisfied ("none": no preceding load)
 
-VARIABLES kind, where, present, last, done
-vars == <<kind, where, present, last, done>>
+VARIABLES kind, where, present, last, done, pre
+vars == <<kind, where, present, last, done, pre>>
 
 LocSeq == <<"dir", "lp1", "lp2", "lp1s", "lp2s">>
 PairOf(n) == <<LocSeq[((n - 1) \div 10) + 1], ((n - 1) % 10) + 1>>
 ValidPair(p, k, w) == p[2] <= NCand(k) /\ p[1] \in AllLocs(w)
 
-Init == /\ kind \in GenKinds /\ where \in GenWhere
+Init == /\ kind \in GenKinds /\ where \in GenWhere /\ pre \in GenPre
         /\ last = 0 /\ done = FALSE
         /\ IF Mode = "dir"
            THEN present \in SUBSET ({"dir"} \X (1..NCand(kind)))
@@ -25,9 +26,9 @@ Add == /\ Mode = "spread" /\ ~done /\ Cardinality(present) < MaxFiles
             /\ ValidPair(PairOf(n), kind, where)
             /\ present' = present \cup {PairOf(n)}
             /\ last' = n
-       /\ UNCHANGED <<kind, where, done>>
+       /\ UNCHANGED <<kind, where, done, pre>>
 
-Finish == /\ ~done /\ done' = TRUE /\ UNCHANGED <<kind, where, present, last>>
+Finish == /\ ~done /\ done' = TRUE /\ UNCHANGED <<kind, where, present, last, pre>>
 
 Next == Add \/ Finish
 Spec == Init /\ [][Next]_vars
@@ -54,7 +55,9 @@ EmitFault == (done /\ Mode = "fault") =>
                               calls |-> UnfoundCalls(kind, c),
                               expect |-> FaultOutcome(kind, c, pr, at, fk)])>>)
 
-Emit == (done /\ Mode \notin {"plain", "fault"}) => PrintT(<<"VEC", ToJson([kind |-> kind, where |-> where,
+(* resolution is a function of the url, the importer and the file system:   *)
+(* a preceding load (field pre) never changes the winner                     *)
+Emit == (done /\ Mode \notin {"plain", "fault"}) => PrintT(<<"VEC", ToJson([kind |-> kind, where |-> where, pre |-> pre,
                                         present |-> SetToSeq({[loc |-> p[1], idx |-> p[2]] : p \in present}),
                                         expect |-> Winner(kind, where, present, {}),
                                         dev |-> DevMap(kind, where, present)])>>)
